@@ -42,10 +42,18 @@ theorem otherPoint_shift (d : F) (p : P2 F) (hs : p.x + d < 0 ↔ p.x < 0) :
   simp only [P2.shift, h0, hs, P2.mk.injEq, and_true]
   ring
 
-theorem BBox.inside_lon_offset (d : F) (b : BBox F) (p : P2 F) (hs : p.x + d < 0 ↔ p.x < 0) :
+/-- since upstream 'fix: bounding box tried only one longitude alias' both aliases are tried whatever the sign of the longitude, so
+no hypothesis on the offset is needed -/
+theorem BBox.inside_lon_offset (d : F) (b : BBox F) (p : P2 F) :
     @BBox.inside F (fieldScalar T) (b.shift ⟨d, 0⟩) true (P2.shift ⟨d, 0⟩ p) = @BBox.inside F (fieldScalar T) b true p := by
+  have e1 : ∀ c : F, (⟨(P2.shift ⟨d, 0⟩ p).x + c, (P2.shift ⟨d, 0⟩ p).y⟩ : P2 F) = P2.shift ⟨d, 0⟩ ⟨p.x + c, p.y⟩ := by
+    intro c; simp only [P2.shift, P2.mk.injEq, and_true]; ring
+  have e2 : ∀ c : F, (⟨(P2.shift ⟨d, 0⟩ p).x - c, (P2.shift ⟨d, 0⟩ p).y⟩ : P2 F) = P2.shift ⟨d, 0⟩ ⟨p.x - c, p.y⟩ := by
+    intro c; simp only [P2.shift, P2.mk.injEq, and_true]; ring
   unfold BBox.inside
-  simp only [if_true, otherPoint_shift T d p hs, BBox.insideImpl_shift]
+  simp only [if_true]
+  erw [e1, e2]
+  simp only [BBox.insideImpl_shift]
 
 /-- the spherical polygon test under a common longitude offset of footprint and point representation (the offset keeps the sign of
 the longitude, so `otherPoint` follows), vertex tolerance exact in all four tests -/
